@@ -13,6 +13,8 @@ def _configs(tier):
         cat = profile_catalogue(tier, n)
         if n == 3:
             cat = cat[:4] + cat[-6:-2]
+        if n == 2:
+            cat = cat + [(["Drainy", "Drainy"], [0.2, 0.2])]
         for layers, dzs in cat:
             out.append((f"{'/'.join(layers)}|{','.join(map(str, dzs))}", {"layers": layers, "dzs": dzs}))
     return out
